@@ -9,13 +9,14 @@ import (
 	"sort"
 	"strings"
 
+	"github.com/lopolopen/shoot/internal/shoot"
 	"github.com/lopolopen/shoot/internal/tools/logx"
 )
 
 func (g *Generator) makeStr(typeName string) {
 	var values []Value
 	for _, f := range g.pkg.files {
-		ast.Inspect(f.file, func(n ast.Node) bool {
+		shoot.InspectTopLevel(f.file, func(n ast.Node) bool {
 			decl, ok := n.(*ast.GenDecl)
 			if !ok {
 				return true
